@@ -15,13 +15,13 @@ TECHNIQUE = 'bounded exhaustive enumeration of head-marked shapes / unary-chain 
 def plan(tier, seed):
     bspecs = [(2, 1), (3, 1), (4, 1), (5, 0), (6, 0)] if tier == 'quick' else [(2, 2), (3, 2), (4, 2), (5, 1), (6, 1), (7, 0)]
     cspecs = [(1, 4), (2, 4), (3, 3), (4, 2)] if tier == 'quick' else [(1, 5), (2, 5), (3, 4), (4, 3), (5, 2)]
-    chunks = sweep.shape_chunks(bspecs, per_chunk=24, kind='bin')
-    chunks += sweep.shape_chunks(cspecs, per_chunk=30, kind='col')
+    chunks = sweep.shape_chunks(bspecs, per_chunk=24, big=True, kind='bin')
+    chunks += sweep.shape_chunks(cspecs, per_chunk=30, big=True, kind='col')
     cn, cu = (4, 2) if tier == 'quick' else (5, 2)
     total = sum(1 for m in range(1, cn + 1) for _ in model.shapes_with_unary(m, cu, continuous=True))
     chunks += [{'kind': 'cli', 'n': cn, 'u': cu, 'lo': lo, 'hi': min(total, lo + 150)} for lo in range(0, total, 150)]
     return {
-        'chunks': chunks,
+        'chunks': chunks + [{'kind': 'clipipe'}],
         'rule': 'binarize: every hierarchy over n tokens (arity up to n, discontinuous included, <= u unary) x '
                 'every head assignment x bare_bin_labels on/off x plain/co-indexed labels, un-binarized by the '
                 'reference; unmarked trees must be rejected iff some node has > 2 children. collapse: every '
@@ -31,7 +31,8 @@ def plan(tier, seed):
                 'node (col)' % (4 if tier == 'quick' else 5),
         'bound': 'bin: ' + ', '.join('n=%d:u<=%d' % s for s in bspecs) + '; col: ' + ', '.join('n=%d:u<=%d' % s for s in cspecs),
         'exhaustive': True,
-        'assumptions': ['labels contain no + and do not start with @',
+        'assumptions': ['driver differential (vt/clipipe.py): `treetools transform` with the pipelines that involve this operation, with and without --split, on a six-sentence corpus must write what the named functions give when applied by the harness in the given order',
+                        'labels contain no + and do not start with @',
                         '"no head mark" = children carry no head key at all (DESIGN D2)'],
     }
 
@@ -244,7 +245,7 @@ def check_cli(n, u, lo, hi):
             bad('cli-failed', program, 'exit status %r %s' % (st, cli.describe(exc)))
             continue
         try:
-            got = codecs.decode_brackets(open(dest, encoding='utf-8').read())
+            got = codecs.decode_brackets(codecs.read_out(dest))
         except codecs.DecodeError as e:
             bad('undecodable', program, str(e))
             continue
@@ -260,6 +261,9 @@ def check_cli(n, u, lo, hi):
 
 
 def check_case(case):
+    if 'clipipe' in case:
+        from .. import clipipe
+        return clipipe.replay(case)
     with quiet():
         if case.get('cli'):
             return check_cli(case['n'], case['u'], case['lo'], case['hi'])[0]
@@ -269,6 +273,11 @@ def check_case(case):
 
 
 def run_chunk(chunk):
+    if chunk.get('kind') == 'clipipe':
+        from .. import clipipe
+        res = Result()
+        clipipe.run_property(ID, res)
+        return res
     res = Result()
     with quiet():
         idx = 0
